@@ -531,6 +531,8 @@ func execCase(out *vc.Out, caseStr string) {
 		out.Case(caseStr, runCloseRace(k), caseStr)
 	case "reattach", "reattachfree":
 		execReattach(out, caseStr, toks)
+	case "xnode":
+		execXnode(out, caseStr, toks)
 	case "bridge", "bridgestall", "bridgereal", "bridgedup":
 		src, i := parseReads(toks, 3, true)
 		tgt, i := parseReads(toks, i, true)
@@ -780,6 +782,7 @@ func main() {
 	if !*noGen {
 		if *only == "" {
 			gen(out, vc.NewRand(*seed), *tier == "thorough")
+			genXnode(out, vc.NewRand(*seed+99), *tier == "thorough")
 		}
 		genReattach(out, vc.NewRand(*seed+77), *tier == "thorough")
 	}
